@@ -334,7 +334,7 @@ pub fn run(ctx: &Ctx) -> Report {
 		.into_iter()
 		.map(|(t, _)| t)
 		.filter(|t| fr_uri.valid(Kind::RiRef, t))
-		.chain(["s://h/p#%FF", "s://h/p#%FE", "s://h/p#%EF%BF%BD", "s://h/p?%FF", "s://h/p?%FE", "s://h/%FF", "s://h/%FE", "s://[1:2:3:4:5:6::8]/", "s://[1:2:3:4:5:6:7:8]/"].iter().map(|t| domains::b(t)))
+		.chain(["s:./a:b", "s:x/../a:b", "s:a:b", "s:.//a", "s:x/..//a", "./a:b?q", ".//a", "s://h/p#%FF", "s://h/p#%FE", "s://h/p#%EF%BF%BD", "s://h/p?%FF", "s://h/p?%FE", "s://h/%FF", "s://h/%FE", "s://[1:2:3:4:5:6::8]/", "s://[1:2:3:4:5:6:7:8]/"].iter().map(|t| domains::b(t)))
 		.collect()
 	};
 	let r = run_shards(ctx, shards, |si| {
